@@ -17,7 +17,9 @@ CONSTANTS Kinds,       \* kinds of operations committed through the API: subset 
           MaxZombie,   \* publishes by a dispatcher whose server is not the controller any more
           MaxSnap,     \* snapshots
           MaxForeign,  \* operations of another cluster on the same NATS deployment
-          Keeps,       \* set of trailing-log counts a snapshot may keep
+          Keeps,       \* configured TrailingLogs of the Raft node (set: one value per configuration;
+                       \* the code: 10240 = hashicorp/raft's default, whatever the snapshot threshold is;
+                       \* a small value = defective variant / generator, MC_Activity_trail.cfg)
           Eager        \* TRUE: environment steps only when no dispatcher can step by itself
                        \*       (the schedule a lock-step driver can reproduce on the real server)
 
@@ -100,8 +102,12 @@ Others ==
   \* (Eager: a snapshot of a server that is down cannot be driven; pend = operations not yet published)
   \/ \E n \in Nodes, kp \in Keeps :
        /\ bud.snap < MaxSnap /\ EnvOK /\ DoSnapshot(n, kp) /\ Spend("snap")
+       \* (depth = entries from the oldest unpublished operation to the end of the log: a
+       \*  configuration with TrailingLogs < depth would compact it away)
        /\ L([a |-> "Snapshot", n |-> n, keep |-> kp, pend |-> Cardinality(Pending),
-             lpgap |-> Cardinality({i \in EligIds(rlog) : i > LP(rlog)})])
+             lpgap |-> Cardinality({i \in EligIds(rlog) : i > LP(rlog)}),
+             depth |-> IF Pending = {} THEN 0
+                       ELSE Len(rlog) + 1 - (CHOOSE x \in Pending : \A y \in Pending : x <= y)])
   \/ bud.foreign < MaxForeign /\ EnvOK /\ ctl # None /\ up[ctl] /\ DoForeignPublish /\ Spend("foreign")
        /\ L([a |-> "ForeignOp"])
   \/ \E n \in Nodes : DoDispatchPanic(n) /\ Keep /\ L([a |-> "DispatchPanic", n |-> n])
